@@ -13,7 +13,7 @@ ASSUMPTIONS = [
     'models are in refreshed bookkeeping state (harness calls M.refresh() first, as the property quantifies over refreshed models)',
     'coefficients are unbounded reals, one per monomial of the stated universe, zero allowed (so every sub-support is covered)',
     'constant penalty: inequality part assumes lam >= |coefficient of every boolean-form term of degree > deg| (for spin models the boolean form is computed on the oracle side); exactness part assumes nothing about lam',
-    'labels are drawn from the mixed-type pool (\'a\', 0, (1,\'t\'), \'b\', 7); label identity / monomial universe / pairs hints are enumerated structure',
+    'labels are drawn from the mixed-type pool (\'a\', 0, (1,\'t\'), \'b\', 7, \'c\') -- labels of one type must be mutually orderable, as the library requires; label identity / monomial universe / pairs hints are enumerated structure',
 ]
 OUTSIDE = ['more than 6 labels', 'degree > 5', 'float rounding', 'models with stale bookkeeping (see C14)', 'non-numeric penalties (see C16)']
 BOUNDS = {
